@@ -299,21 +299,33 @@ var verifURNs = []urns.URN{"twitter:bob", "twitter:jim", "mailto:bob@nyaruka.com
 // VerifC03_URNs: URNs modifier (append / remove / set) with lists of up to two
 // URNs over a contact holding any ordered sub-list of three URNs; a query
 // group on having a tel URN.
-// cover: changed, unchanged, append, remove, set, two-urns
+// cover: changed, unchanged, append, remove, set, two-urns, channel-affinity, other-display
 func VerifC03_URNs() {
 	env := envs.NewBuilder().Build()
 	sa, groups := verifWorld(env, contactql.NewCondition(contactql.PropertyTypeURN, "twitter", contactql.OpNotEqual, ""))
+	sa.chans = flows.NewChannelAssets([]assets.Channel{&verifChannel{"c0000000-0000-4000-8000-000000000001", []string{"twitter", "mailto"}, []assets.ChannelRole{assets.ChannelRoleSend}}})
 	c := flows.NewEmptyContact(sa, "Bob", "eng", nil)
 	for _, u := range verifURNs {
 		if zzverif.Choice("has-urn", 2) == 1 {
 			c.AddURN(u, nil)
 		}
 	}
+	// the contact's first URN may carry a channel affinity (a modification that keeps its identity can still change it)
+	if len(c.URNs()) > 0 && zzverif.Choice("first-urn-has-channel", 2) == 1 {
+		c.URNs()[0].SetChannel(sa.chans.Get("c0000000-0000-4000-8000-000000000001"))
+		zzverif.Cover("channel-affinity")
+	}
 	verifMembership(c, groups[2:])
 	n := 1 + zzverif.Choice("list-length", 2)
+	// the list may name a URN of the contact with another display part
+	pool := append(append([]urns.URN{}, verifURNs...), "twitter:bob#Bobby")
 	var list []urns.URN
 	for i := 0; i < n; i++ {
-		list = append(list, verifURNs[zzverif.Choice("urn", 3)])
+		k := zzverif.Choice("urn", len(pool))
+		if k == 3 {
+			zzverif.Cover("other-display")
+		}
+		list = append(list, pool[k])
 	}
 	if n == 2 {
 		zzverif.Cover("two-urns")
